@@ -291,6 +291,9 @@ Definition show_case (g : list rule) (nu : nat) (trees : list tree) : string :=
       sjoin ";" (map (fun x => sjoin "," (map show_nat (inh s x))) (seq 0 nu)) ++ "|" ++
       sjoin ";" (map (fun k => sjoin "" (map (fun r => show_ob (isinstance n (inh s) k (Some r))) (seq 0 nu))
                              ++ show_ob (isinstance n (inh s) k None)) (seq 0 nu)) ++ "|" ++
+      (if forallb (fun x => match types s x, r_body (rule_of g x) with
+                            | KAbstract, Body e => seq_ok (types s) e
+                            | _, _ => true end) (seq 0 n) then "S" else "s") ++ "|" ++
       sjoin "@" (map (fun t => show_value (process (types s) t)) trees)
   end."""
 
@@ -736,10 +739,12 @@ def check_case(chk, c, failures, disagreements):
         back = {v: k for k, v in idx.items()}
         runs_ok = [run for run in o["runs"] if not run["error"]]
         i_vals = "@".join(run["dump"] for run in runs_ok)
-        m_vals = re.sub(r"#(\d+)\(", lambda m: back[int(m.group(1))] + "(", mv.split("|", 4)[4]) if mv.count("|") >= 4 else mv
-        impl_s = "|".join([str(o.get("passes")), i_k, i_inh, i_is, i_vals])
-        model_s = "|".join(mv.split("|", 4)[:4] + [m_vals]) if mv.count("|") >= 4 else mv
-        if mv.count("|") >= 4:
+        m_vals = re.sub(r"#(\d+)\(", lambda m: back[int(m.group(1))] + "(", mv.split("|", 5)[5]) if mv.count("|") >= 5 else mv
+        # the 5th field ties the finding's classifier to the theorem's hypothesis: seq_ok of every abstract body (Coq)
+        # against skippable_first on the grammar source (Python)
+        impl_s = "|".join([str(o.get("passes")), i_k, i_inh, i_is, "s" if skf else "S", i_vals])
+        model_s = "|".join(mv.split("|", 5)[:5] + [m_vals]) if mv.count("|") >= 5 else mv
+        if mv.count("|") >= 5:
             np_ = mv.split("|", 1)[0]
             chk.stat("grammars resolved in %s passes" % (np_ if np_ in ("1", "2", "3") else ">=4"))
         chk.cov["disagreements_checked"] += 1
@@ -810,7 +815,7 @@ def check_case(chk, c, failures, disagreements):
 
 def run(chk):
     chk.prove([kinds_tr.translate])
-    n = 600 if chk.thorough else 160
+    n = 400 if chk.thorough else 160
     cases = []
     for c in load_corpus():
         cases.append({"g": c["grammar"], "inputs": c["inputs"], "origin": c["origin"]})
